@@ -32,6 +32,17 @@ func Equal(x, y any) bool {
 func equalValue(x, y reflect.Value) bool {
 	// Copied from src/reflect/deepequal.go, omitting the visited check (because JSON
 	// values are trees).
+
+	// Step through interfaces and pointers, as validate does, so that the result
+	// does not depend on whether a JSON value is held directly, in an interface
+	// (like the elements of a []any) or behind a pointer. A nil interface or
+	// pointer is the JSON null.
+	for x.Kind() == reflect.Interface || x.Kind() == reflect.Pointer {
+		x = x.Elem()
+	}
+	for y.Kind() == reflect.Interface || y.Kind() == reflect.Pointer {
+		y = y.Elem()
+	}
 	if !x.IsValid() || !y.IsValid() {
 		return x.IsValid() == y.IsValid()
 	}
@@ -42,50 +53,36 @@ func equalValue(x, y reflect.Value) bool {
 	if ok1 && ok2 {
 		return rx.Cmp(ry) == 0
 	}
+	// A Go array and a slice can hold the same JSON array.
+	if isArrayOrSlice(x) && isArrayOrSlice(y) {
+		if x.Kind() == reflect.Slice && y.Kind() == reflect.Slice {
+			if x.IsNil() != y.IsNil() {
+				return false
+			}
+			if x.Len() == y.Len() && x.UnsafePointer() == y.UnsafePointer() {
+				return true
+			}
+			// Special case for []byte, which is common.
+			if x.Type().Elem().Kind() == reflect.Uint8 && x.Type() == y.Type() {
+				return bytes.Equal(x.Bytes(), y.Bytes())
+			}
+		} else if (x.Kind() == reflect.Slice && x.IsNil()) || (y.Kind() == reflect.Slice && y.IsNil()) {
+			return false
+		}
+		if x.Len() != y.Len() {
+			return false
+		}
+		for i := range x.Len() {
+			if !equalValue(x.Index(i), y.Index(i)) {
+				return false
+			}
+		}
+		return true
+	}
 	if x.Kind() != y.Kind() {
 		return false
 	}
 	switch x.Kind() {
-	case reflect.Array:
-		if x.Len() != y.Len() {
-			return false
-		}
-		for i := range x.Len() {
-			if !equalValue(x.Index(i), y.Index(i)) {
-				return false
-			}
-		}
-		return true
-	case reflect.Slice:
-		if x.IsNil() != y.IsNil() {
-			return false
-		}
-		if x.Len() != y.Len() {
-			return false
-		}
-		if x.UnsafePointer() == y.UnsafePointer() {
-			return true
-		}
-		// Special case for []byte, which is common.
-		if x.Type().Elem().Kind() == reflect.Uint8 && x.Type() == y.Type() {
-			return bytes.Equal(x.Bytes(), y.Bytes())
-		}
-		for i := range x.Len() {
-			if !equalValue(x.Index(i), y.Index(i)) {
-				return false
-			}
-		}
-		return true
-	case reflect.Interface:
-		if x.IsNil() || y.IsNil() {
-			return x.IsNil() == y.IsNil()
-		}
-		return equalValue(x.Elem(), y.Elem())
-	case reflect.Pointer:
-		if x.UnsafePointer() == y.UnsafePointer() {
-			return true
-		}
-		return equalValue(x.Elem(), y.Elem())
 	case reflect.Struct:
 		t := x.Type()
 		if t != y.Type() {
@@ -277,6 +274,10 @@ func jsonType(v reflect.Value) (string, bool) {
 	default:
 		return "", false
 	}
+}
+
+func isArrayOrSlice(v reflect.Value) bool {
+	return v.Kind() == reflect.Array || v.Kind() == reflect.Slice
 }
 
 func assert(cond bool, msg string) {
